@@ -364,7 +364,7 @@ inductive Res where
   | bool (b : Bool)
   | keys (l : List (String × SubKey))
   | err (e : String)
-deriving Repr, Inhabited
+deriving Repr, Inhabited, DecidableEq
 
 section Step
 variable {V : Type}
